@@ -9,7 +9,7 @@
   from the source text (`Gen.cliJunitChildren`, `Gen.cliJunitCounts`).
 -/
 import FcModel.Cli
-namespace Fc.Cli
+namespace Fc.C04
 open Fc
 
 structure TestCase where
@@ -129,4 +129,4 @@ def dirReport (pf : String → FloatLit) (d : DirScenario) : ExitOutcome × Opti
      some (suites.map fun s => junitElement s.1 s.2))
   | _, _ => (.raisedOut, none)
 
-end Fc.Cli
+end Fc.C04
